@@ -80,16 +80,20 @@ def movers(kind):
     return out
 
 
+_ARGS_STATE = {"loops_failed": False}
+
+
 def args(m):
     n, ne = len(m.v), len(m.t)
     extra = {}
-    if isinstance(m, TriaMesh) and n <= 40:
-        try:
-            with core.quiet():
-                if not m.is_closed() and m.is_oriented() and m.is_manifold():
-                    extra["lm"], extra["tgt"] = _beltrami_args(m)
-        except Exception:  # noqa: BLE001
-            pass
+    if isinstance(m, TriaMesh) and (n, ne) == (20, 24) and not _ARGS_STATE["loops_failed"]:
+        # landmark data for the Beltrami solver on the 4 x 3 grids (boundary_loops is a Python-level walk that may spin on an object whose
+        # adjacency a modified library has corrupted: interruptible call, and never tried again after one failure)
+        r = core.call(lambda: _beltrami_args(m) if (not m.is_closed() and m.is_oriented() and m.is_manifold()) else None)
+        if r[0] == "ok" and r[1] is not None:
+            extra["lm"], extra["tgt"] = r[1]
+        elif r[0] != "ok":
+            _ARGS_STATE["loops_failed"] = True
     return dict(extra, f=np.sin(np.arange(n)) + 0.13 * np.arange(n), g=np.cos(0.7 * np.arange(n)), X=np.cos(np.arange(3 * ne)).reshape(ne, 3), tf=np.cos(np.arange(ne)),
                 ev=np.array([1.0, 2.0, 3.5]), vids=[0, 3], didx=np.array([0, 5]), ddat=np.array([0.5, -1.0]), didx2=np.array([1, 4]), ddat2=np.array([-0.3, 0.8]),
                 nidx=np.array([2]), ndat=np.array([0.3]))
@@ -102,6 +106,8 @@ def _beltrami_args(m):
 
 
 def _lbs(m, A):
+    if "lm" not in A:
+        raise ValueError("no landmark data for this mesh")
     return conformal.linear_beltrami_solver(m, np.full(len(m.t), 0.1 + 0.05j), A["lm"], A["tgt"])
 
 
